@@ -930,7 +930,46 @@ void Explorer<FSM>::checkC02(const Node& node, Exec& x) {
 		}
 	} else {
 		// batches: the statement-level clauses (DESIGN 3.4 (i)-(iii)); agreement with the map model is only counted
-		if (bad >= 0) ++counters["c02_batch_model_differs_observed"];
+		if (bad >= 0) {
+			++counters["c02_batch_model_differs_observed"];
+			{
+				// witness of the known finding: the region whose sub-state differs was resolved by an earlier request (it lies at or below
+				// that request's destination) and lies inside the sub-tree a later request re-targets
+				bool sameDest = false;
+				int rb = E::D(bad).parent;
+				while (rb >= 0 && !E::isCompo(rb)) rb = E::D(rb).parent;
+				if (rb >= 0)
+					for (size_t i = 0; i < reqs.size(); ++i) for (size_t j = i + 1; j < reqs.size(); ++j) {
+						if (reqs[i].kind == T_SCHEDULE || reqs[j].kind == T_SCHEDULE) continue;
+						int top = reqs[j].dest;
+						while (E::D(top).parent >= 0 && !E::isCompo(E::D(top).parent)) top = E::D(top).parent;
+						// resolved by request i: at or below its destination, or in another prong of an orthogonal region on its path
+						bool resolvedByI = isAncestorOrSelf(reqs[i].dest, rb);
+						if (!resolvedByI && !isAncestorOrSelf(rb, reqs[i].dest)) {
+							int topI = reqs[i].dest;
+							while (E::D(topI).parent >= 0 && !E::isCompo(E::D(topI).parent)) topI = E::D(topI).parent;
+							if (isAncestorOrSelf(topI, rb)) {
+								int l = rb;
+								while (l >= 0 && !isAncestorOrSelf(l, reqs[i].dest)) l = E::D(l).parent;
+								if (l >= 0 && E::isOrtho(l)) resolvedByI = true;
+							}
+						}
+						if (resolvedByI && isAncestorOrSelf(top, rb) && (reqs[i].dest != reqs[j].dest || reqs[i].kind != reqs[j].kind)) sameDest = true;
+					}
+				++counters[sameDest ? "c02_batch_model_differs_same_destination_other_kind" : "c02_batch_model_differs_other"];
+				if (!m.usedSelectOnRegion) {
+					// the map semantics (every request's path is kept unless a later request conflicts; regions are resolved by the kind of
+					// the request that first reaches them) is exact for batches as well - except when a later request addresses a region
+					// that an earlier request (to the same region or to an ancestor) already resolved: the library keeps the earlier
+					// resolution instead of letting the later request override it (known finding)
+					violation("C02", sameDest ? "batch/region-already-resolved-by-earlier-request" : "batch/model-differs",
+							  "after " + op.text() + " the active configuration is {" + got + " } but the rules prescribe {" + exp + " } (first difference at S" + str(bad) + ")" +
+							  (sameDest ? "; a later request addresses a region that an earlier request of the batch (to the same region or to an ancestor) had already resolved, and the earlier resolution was kept" : ""), x);
+					return;
+				}
+			}
+			if (getenv("VT_DEBUG_BATCH") && counters["c02_batch_model_differs_observed"] % 97 == 1) fprintf(stderr, "BATCHDIFF %s | %s | before %s | got {%s } model {%s }\n", VT_PROG_NAME, op.text().c_str(), x.keyBefore.c_str(), got.c_str(), exp.c_str());
+		}
 		if (!m.usedSelectOnRegion) {
 			// (i) the last request always wins
 			if (!activeChain(lastNs.dest)) {
